@@ -3,7 +3,27 @@ from runner import PropBase
 BUCKET = 500
 
 
+def gen_free(rng, i):
+    """no forced schedule: 3-4 threads run long programs freely in parallel, the clock frozen inside one bucket"""
+    nt = rng.pick([3, 4])
+    mode = rng.pick([1, 2])
+    base = 1_700_000_000_000 + rng.randrange(0, 100000) * BUCKET + rng.randrange(50, 450)
+    progs = []
+    for t in range(nt):
+        ops = []
+        inb = 1 if rng.chance(0.5) else 0
+        for _ in range(rng.pick([60, 120])):
+            ops.append(("B", rng.pick([0, 1, 1, 2]), inb))
+            ops.append(("X",))
+        if rng.chance(0.5):
+            ops.append(("B", 1, inb))
+        progs.append(ops)
+    return {"base": base, "mode": mode, "progs": progs, "steps": [], "free": True}
+
+
 def gen_case(rng, i):
+    if i % 10 == 7:
+        return gen_free(rng, i)
     nt = rng.pick([2, 2, 2, 3, 3, 4])
     mode = rng.pick([0, 1, 1, 1, 2, 2])
     # base near the start, the middle or the end of a 500 ms bucket
@@ -25,7 +45,7 @@ def gen_case(rng, i):
                 ops.append(("X",))
                 opened -= 1
             else:
-                ops.append(("B", rng.pick([1, 1, 1, 2, 3, 7]), 1 if rng.chance(0.4) else 0))
+                ops.append(("B", rng.pick([1, 1, 1, 2, 3, 7, 0]), 1 if rng.chance(0.4) else 0))
                 opened += 1
         if rng.chance(0.1):
             ops.append(("X",))
@@ -65,7 +85,7 @@ def gen_case(rng, i):
             else:
                 dt = rng.pick([20000, 60000])
         steps.append((tid, dt))
-    return {"base": base, "mode": mode, "progs": progs, "steps": steps}
+    return {"base": base, "mode": mode, "progs": progs, "steps": steps, "free": False}
 
 
 class C14(PropBase):
@@ -86,7 +106,9 @@ class C14(PropBase):
             "inc/dec) given as 0-90 (thread, clock advance) steps: round robin, random, runs, skewed; clock advances of "
             "0, a few ms, around one bucket, around the window and beyond; compared: the whole point trace, the node "
             "each entry holds, every exit's round trip, final in-flight count and pass/complete/rt totals of the "
-            "resource node and the inbound node; non-trivial = at least two threads interleave (two different threads "
+            "resource node and the inbound node; every tenth case instead lets 3-4 real threads run 60-120 build/exit pairs each "
+            "freely in parallel with the clock frozen inside one bucket (no forced schedule: only the final readings, which "
+            "every schedule must agree on, are compared); batch 0 included; non-trivial = at least two threads interleave (two different threads "
             "appear in the forced part of the trace); distinct = distinct case text")
     assumptions = ["threads are interleaved only at the guarded scheduling points (cooperative scheduler); everything "
                    "between two points runs without interference, which holds because these points lie outside "
@@ -114,6 +136,8 @@ class C14(PropBase):
         toks.append(len(c["steps"]))
         for tid, dt in c["steps"]:
             toks += [tid, dt]
+        if c.get("free"):
+            toks.append("F")
         return " ".join(str(x) for x in toks)
 
     def coq(self, c):
@@ -121,7 +145,7 @@ class C14(PropBase):
             return "[" + "; ".join("TB %d %s" % (o[1], "true" if o[2] else "false") if o[0] == "B" else "TX" for o in p) + "]"
         progs = "[" + "; ".join(prog(p) for p in c["progs"]) + "]"
         steps = "[" + "; ".join("(%d%%nat, %d)" % (t, d) for t, d in c["steps"]) + "]"
-        return "mkCCase %d %d %s %s" % (c["base"], c["mode"], progs, steps)
+        return "mkCCase %d %d %s %s %s" % (c["base"], c["mode"], progs, steps, "true" if c.get("free") else "false")
 
     def shrink_candidates(self, c):
         out = []
@@ -143,6 +167,8 @@ class C14(PropBase):
     def nontrivial(self, c, obs):
         if not obs or len(obs) < 2:
             return False
+        if c.get("free"):
+            return True
         n = obs[1]
         tids = set()
         for k in range(n):
